@@ -7,3 +7,4 @@ import JaxVerif.Properties.C19
 #print axioms JV.C19_toggle
 #print axioms JV.C19_generated_good
 #print axioms JV.C19_late_test_differs
+#print axioms JV.C19_source_disabled
